@@ -715,11 +715,18 @@ theorem fastFlags_facts (n : Nat) (hn : n ≤ MAXU) :
     intro l rfb i buf hk _ hb _ _
     have : l = [] := List.eq_nil_of_length_eq_zero (by omega)
     subst this
-    right; exact ⟨rfb, buf, rfl, hb, by simp⟩
+    unfold fastFlags
+    by_cases hin : i = n
+    · right; exact ⟨rfb, buf, by simp [hin], hb, by simp⟩
+    · left; simp [hin]
   | succ k ih =>
     intro l rfb i buf hk hby hb hi hr
     cases l with
-    | nil => right; exact ⟨rfb, buf, rfl, hb, by simp⟩
+    | nil =>
+      unfold fastFlags
+      by_cases hin : i = n
+      · right; exact ⟨rfb, buf, by simp [hin], hb, by simp⟩
+      · left; simp [hin]
     | cons f rest =>
       have hin : i < n := by rcases hi with h | h; exact h; cases h
       simp only [List.length_cons] at hk hr
@@ -804,26 +811,28 @@ theorem readPointsFast_facts (ends gd : List Nat) (he : U16s ends) (hb : Bytes g
     ∃ pts, readPointsFast ends gd pl flags0 mask = .ok pts ∧ numPoints ends = some pts.length ∧
       pl = pts.length ∧ flags0.length = pts.length := by
   obtain ⟨n, hn, hn65, _, _⟩ := numPoints_some ends he
+  have hsat : min (2 * n) MAXU = 2 * n := by unfold MAXU; omega
   unfold readPointsFast
-  simp only [hn]
+  simp only [hn, hsat]
   by_cases hlen : pl ≠ n ∨ flags0.length ≠ n
   · left; simp [hlen]
   · simp only [hlen, if_false]
     have hpl : pl = n := by omega
     have hfl : flags0.length = n := by omega
-    have hk : (Cur.init.readArray gd (min n (Cur.init.remainingBytes gd)) 1).1 = .ok (min n gd.length) := by
+    have hk : (Cur.init.readArray gd (min (2 * n) (Cur.init.remainingBytes gd)) 1).1
+        = .ok (min (2 * n) gd.length) := by
       have : Cur.init.remainingBytes gd = gd.length := by simp [Cur.remainingBytes, Cur.init]
       rw [this]
       exact readArray_u8 gd hl Cur.init _ (by simp [Cur.init]; exact Nat.min_le_right _ _)
     rw [hk]
     dsimp only
     have hn' : n ≤ MAXU := by unfold MAXU; omega
-    have hkl : (gd.take (min n gd.length)).length = min n gd.length := by simp
-    rcases fastFlags_facts n hn' _ (gd.take (min n gd.length)) 0 0 flags0 (Nat.le_refl _) (bytes_take hb _) hfl
+    have hkl : (gd.take (min (2 * n) gd.length)).length = min (2 * n) gd.length := by simp
+    rcases fastFlags_facts n hn' _ (gd.take (min (2 * n) gd.length)) 0 0 flags0 (Nat.le_refl _) (bytes_take hb _) hfl
         (by by_cases h0 : n = 0
             · right; simp [h0]
             · left; omega)
-        (by rw [hkl]; have := Nat.min_le_right n gd.length; omega) with h | ⟨rfb, buf, h1, h2, _⟩
+        (by rw [hkl]; have := Nat.min_le_right (min (2 * n) MAXU) gd.length; omega) with h | ⟨rfb, buf, h1, h2, _⟩
     · right; left; simp [h]
     · simp only [h1]
       rcases fastCoords_facts X_SHORT X_SAME gd buf (Cur.init.advanceBy rfb) 0 with h | ⟨xs, c1, hx1, hx2⟩
